@@ -3,7 +3,12 @@
 A scenario is data shared by TLC and by the generated real processes (harness/scope_real.py):
 
   {'name', 'mode': 'any'|'idle', 'early': bool, 'nfut': n, 'soon': {process ids},
-   'procs': [{'role': 'top'|'sub', 'ctl': {'kill','pause'}, 'steps': [{'ops': [{'op','arg'}], 'end': 'stop'|'cont'|'wait'}]}]}
+   'procs': [{'role': 'top'|'sub', 'ctl': {'kill','pause'}, 'cl': number of cleanup callbacks registered at construction,
+              'steps': [{'ops': [{'op','arg'}], 'end': 'stop'|'cont'|'wait'}]}]}
+
+Every process overrides the termination hooks too: `on_terminated` (sampled on entry and after super() closed the process),
+`on_close`, and its `add_cleanup` callbacks (registered at construction: 'cl', or from a step: op 'addcl') sample as
+`cleanup<k>` in registration order.
 
 Process ids, future ids and step numbers are 1-based as in the specification.
 """
@@ -13,6 +18,15 @@ from . import tlaval, tlc
 
 DEV = 'D18'          # the as-written clause: hooks/listeners of transitions, _do_pause and play run outside the scope
 FIX = 'F18'
+DEV_CLOSE = 'D18c'   # the as-written clause: the user's own close() runs on_close / the cleanup callbacks in the caller's scope
+FIX_CLOSE = 'F18c'
+# The user's own close() as an environment request (scenarios with 'close' in a process's ctl).  SWITCHED OFF: on the
+# unmodified library it exposes a violation of the property that is not (yet) a listed finding - `proc.close()` called
+# from outside runs the hook on_close and the add_cleanup callbacks with Process.current() = None / the caller (close()
+# is a plain call, unlike kill() / pause() / play() whose hooks run inside the process scope).  With the switch on, the
+# verdict instance reports CurrentIsRunning (clause D18c) and the replay confirms that the implementation behaves as the
+# as-written clause says.  Switch on once it is repaired (add 'F18c' to checks/c18.FIXES) or listed (known_findings.json).
+MODEL_USER_CLOSE = os.environ.get('VERIF_C18_USER_CLOSE', '') == '1'
 
 INVARIANTS = ['CurrentIsRunning', 'Restored', 'Balanced', 'DefaultIntact', 'WellFormed']
 
@@ -40,6 +54,11 @@ def osoon(target, awaits=0):
     return {'op': 'osoon', 'arg': target, 'x': awaits}
 
 
+def addcl():
+    """self.add_cleanup(cb) from the step: cb samples when the process is closed (by its terminal transition)"""
+    return {'op': 'addcl', 'arg': 0, 'x': 0}
+
+
 def ofail(target):
     return {'op': 'ofail', 'arg': target, 'x': 0}
 
@@ -56,8 +75,8 @@ def step(ops=(), end='stop'):
     return {'ops': list(ops), 'end': end}
 
 
-def proc(steps, role='top', ctl=()):
-    return {'role': role, 'steps': list(steps), 'ctl': set(ctl)}
+def proc(steps, role='top', ctl=(), cl=0):
+    return {'role': role, 'steps': list(steps), 'ctl': set(ctl), 'cl': cl}
 
 
 def scen(name, procs, mode='any', early=True, soon_env=()):
@@ -69,24 +88,24 @@ def scen(name, procs, mode='any', early=True, soon_env=()):
 # ---- the families ---------------------------------------------------------------------------------------
 def family(tier):
     """-> (scenarios replayed behaviour by behaviour, additional scenarios that are only model-checked)"""
-    two_async = scen('two_async', [proc([step([aw(1), aw(2)])]), proc([step([aw(3), aw(4)])])])
+    two_async = scen('two_async', [proc([step([aw(1), aw(2)])], cl=1), proc([step([aw(3), aw(4)])])])
     cont_wait = scen('cont_wait', [proc([step([aw(1)], 'cont'), step([aw(2)])]),
                                    proc([step([], 'wait'), step([aw(3)])])], early=False)
-    control = scen('control', [proc([step([aw(1)])], ctl=['kill', 'pause']),
+    control = scen('control', [proc([step([aw(1)])], ctl=['kill', 'pause'], cl=1),
                                proc([step([aw(2)], 'cont'), step([])], ctl=['pause'])], early=False)
-    wait_ctl = scen('wait_ctl', [proc([step([], 'wait'), step([])], ctl=['kill', 'pause']),
+    wait_ctl = scen('wait_ctl', [proc([step([], 'wait'), step([])], ctl=['kill', 'pause'], cl=2),
                                  proc([step([aw(1)])])], early=False)
     child_soon = scen('child_soon', [proc([step([launch(2), soon(), aw(1)])]),
-                                     proc([step([aw(2)])], role='sub')], early=False, soon_env=[1, 2])
-    soon_raise = scen('soon_raise', [proc([step([soon(True), aw(1)])]), proc([step([aw(2)])])], early=False)
-    nest2 = scen('nest2', [proc([step([aw(1), nest(2), aw(2)])]), proc([step([aw(3)])], role='sub')], mode='idle')
+                                     proc([step([aw(2)])], role='sub', cl=1)], early=False, soon_env=[1, 2])
+    soon_raise = scen('soon_raise', [proc([step([soon(True), aw(1)])], cl=1), proc([step([aw(2)])])], early=False)
+    nest2 = scen('nest2', [proc([step([aw(1), nest(2), aw(2)])]), proc([step([aw(3)])], role='sub', cl=1)], mode='idle')
     nest_ctl = scen('nest_ctl', [proc([step([nest(2)], 'cont'), step([])], ctl=['pause', 'kill']),
                                  proc([step([aw(1)])], role='sub')], mode='idle', early=False, soon_env=[1])
-    idle_two = scen('idle_two', [proc([step([aw(1), soon()])], ctl=['kill']), proc([step([aw(2)], 'wait'), step([])])],
+    idle_two = scen('idle_two', [proc([step([aw(1), soon()])], ctl=['kill'], cl=1), proc([step([aw(2)], 'wait'), step([])])],
                     mode='idle', early=False)
     # an inner (re-entrantly executed / launched) process acts on the OUTER one from its step: fail / kill / pause, and
     # outer.call_soon(cb) with a callback that samples on entry and after an await
-    nest_fail = scen('nest_fail', [proc([step([nest(2), aw(1)])]), proc([step([aw(2), ofail(1), aw(3)])], role='sub')],
+    nest_fail = scen('nest_fail', [proc([step([nest(2), aw(1)])], cl=1), proc([step([aw(2), ofail(1), aw(3)])], role='sub')],
                      mode='idle', early=False)
     nest_osoon = scen('nest_osoon', [proc([step([aw(1), nest(2)], 'cont'), step([aw(2)])]),
                                      proc([step([osoon(1, awaits=3), aw(4), okill(1)])], role='sub')], mode='idle', early=False)
@@ -95,10 +114,25 @@ def family(tier):
     child_acts = scen('child_acts', [proc([step([launch(2), aw(1), soon(awaits=2)])]),
                                      proc([step([osoon(1, awaits=3), aw(4), osoon(1)])], role='sub')], early=False)
     child_fail = scen('child_fail', [proc([step([launch(2), aw(1)])]), proc([step([ofail(1), aw(2)])], role='sub'),
-                                     proc([step([launch(4), aw(3)], 'cont'), step([])]),
+                                     proc([step([launch(4), aw(3)], 'cont'), step([])], cl=1),
                                      proc([step([okill(3), aw(4)])], role='sub')], early=False)
-    quick = [two_async, cont_wait, control, wait_ctl, child_soon, soon_raise, nest2, nest_ctl, idle_two,
-             nest_fail, nest_osoon, nest_opause, child_acts, child_fail]
+    # termination hooks and cleanup callbacks (on_terminated -> close() -> on_close -> add_cleanup callbacks), registered at
+    # construction and from steps, on every way into a terminal state: a step that finishes, a deferred and an immediate
+    # kill from outside, a raising callback, a launched child, and a kill / failure issued by ANOTHER process's step
+    term_any = scen('term_any', [proc([step([addcl(), launch(2), aw(1)], 'cont'), step([addcl()])], ctl=['kill'], cl=1),
+                                 proc([step([aw(2), addcl(), okill(3)])], role='sub', cl=1),
+                                 proc([step([soon(True), aw(3)], 'wait'), step([])], cl=2)], early=False)
+    term_nest = scen('term_nest', [proc([step([addcl(), nest(2), aw(1)])], ctl=['kill'], cl=1),
+                                   proc([step([addcl(), aw(2), okill(3)])], role='sub', cl=1),
+                                   proc([step([aw(3)], 'wait'), step([])], cl=1)], mode='idle', early=False)
+    # the user's own close() on live processes (while one awaits, before its first step, while it waits for a resume), then
+    # what follows: the step in flight ends with its transition, the next step() raises ClosedError, a later kill still
+    # runs a complete transition whose on_terminated finds the process closed
+    user_close = scen('user_close', [proc([step([aw(1)], 'cont'), step([])], ctl=['close', 'kill'], cl=2),
+                                     proc([step([], 'wait'), step([])], ctl=['close'], cl=1)], early=False)
+    extra = [user_close] if MODEL_USER_CLOSE else []
+    quick = extra + [two_async, cont_wait, control, wait_ctl, child_soon, soon_raise, nest2, nest_ctl, idle_two,
+             nest_fail, nest_osoon, nest_opause, child_acts, child_fail, term_any, term_nest]
     if tier == 'quick':
         return quick, []
     three = scen('three_async', [proc([step([aw(1), aw(2)])]), proc([step([aw(3), aw(4)])]), proc([step([aw(5), aw(6)])])],
@@ -109,9 +143,9 @@ def family(tier):
                                        proc([step([aw(6)])], role='sub')], early=False)
     three_ctl = scen('three_ctl', [proc([step([aw(1), launch(4)])], ctl=['pause']),
                                    proc([step([soon(), aw(2)], 'cont'), step([])]),
-                                   proc([step([], 'wait'), step([])], ctl=['kill']),
-                                   proc([step([aw(3)])], role='sub')], early=False)
-    control3 = scen('control3', [proc([step([aw(1)], 'cont'), step([])], ctl=['kill', 'pause']),
+                                   proc([step([], 'wait'), step([])], ctl=['kill'], cl=1),
+                                   proc([step([aw(3)])], role='sub', cl=1)], early=False)
+    control3 = scen('control3', [proc([step([aw(1)], 'cont'), step([])], ctl=['kill', 'pause'], cl=1),
                                  proc([step([aw(2)], 'wait'), step([])], ctl=['pause']),
                                  proc([step([soon(True), aw(3)])])], early=False)
     control3_idle = scen('control3_idle', [proc([step([aw(1)], 'cont'), step([aw(2)])], ctl=['kill', 'pause']),
@@ -120,12 +154,12 @@ def family(tier):
     nest3 = scen('nest3', [proc([step([aw(1), nest(4), aw(2)])]),
                            proc([step([aw(3), launch(5)], 'cont'), step([aw(4)])]),
                            proc([step([soon(), aw(5)])], ctl=['kill']),
-                           proc([step([aw(6)], 'cont'), step([aw(7)])], role='sub'),
+                           proc([step([aw(6)], 'cont'), step([aw(7), addcl()])], role='sub', cl=1),
                            proc([step([aw(8)])], role='sub')], mode='idle', early=False)
     nest_deep = scen('nest_deep', [proc([step([nest(2), aw(1)])], ctl=['pause']),
                                    proc([step([aw(2), nest(3)], 'cont'), step([soon()])], role='sub'),
                                    proc([step([aw(3), launch(4)])], role='sub'),
-                                   proc([step([aw(4)])], role='sub', ctl=['kill']),
+                                   proc([step([aw(4)])], role='sub', ctl=['kill'], cl=2),
                                    proc([step([aw(5)], 'wait'), step([])])], mode='idle', early=False, soon_env=[3])
     nest_early = scen('nest_early', [proc([step([aw(1), nest(3)])]), proc([step([nest(4), aw(2)])]),
                                      proc([step([aw(3)])], role='sub'), proc([step([aw(4)])], role='sub')], mode='idle')
@@ -143,7 +177,7 @@ def family(tier):
 # ---- MC module -------------------------------------------------------------------------------------------
 def _emit_scen(s):
     d = dict(s)
-    d['procs'] = [{'role': p['role'], 'steps': p['steps'], 'ctl': set(p['ctl'])} for p in s['procs']]
+    d['procs'] = [{'role': p['role'], 'steps': p['steps'], 'ctl': set(p['ctl']), 'cl': p.get('cl', 0)} for p in s['procs']]
     d['soon'] = set(s['soon'])
     return tlaval.emit(d)
 
@@ -180,5 +214,5 @@ def jsonable(s):
     """scenario -> JSON-serialisable (sets become sorted lists)"""
     d = dict(s)
     d['soon'] = sorted(s['soon'])
-    d['procs'] = [{'role': p['role'], 'steps': p['steps'], 'ctl': sorted(p['ctl'])} for p in s['procs']]
+    d['procs'] = [{'role': p['role'], 'steps': p['steps'], 'ctl': sorted(p['ctl']), 'cl': p.get('cl', 0)} for p in s['procs']]
     return d
